@@ -459,8 +459,11 @@ class ManifestRecursiveLoader:
                 if not to_load:
                     break
 
-                manifests = pool.imap_unordered(
-                    self.manifest_loader, to_load, chunksize=16)
+                # collect the whole batch first, so that a Manifest
+                # failing verification does not leave a part of the batch
+                # accepted (and the failing reference skipped) on retry
+                manifests = list(pool.imap_unordered(
+                    self.manifest_loader, to_load, chunksize=16))
                 self.loaded_manifests.update(manifests)
 
     def find_timestamp(self):
